@@ -318,7 +318,13 @@ pub fn gen_built(s: &mut Src, img: &[[u16; 2]], cb: u8, ro: u8, version: u8, vsi
         let len = s.pick(40);
         spec.ext_unknown = Some((0x1234_0000 + s.pick(16) as u32, (0..len).map(|i| (i * 3 + 1) as u8).collect()));
     }
-    spec.l1_extra = if s.chance(1, 5) { 1 + s.pick(3) as u32 } else { 0 };
+    // header lists more L1 entries than the virtual size needs: a few, or enough to push the
+    // table past the next block / cluster boundary
+    spec.l1_extra = match s.weighted(&[70, 20, 10]) {
+        0 => 0,
+        1 => 1 + s.pick(3) as u32,
+        _ => 40 + s.pick(100) as u32,
+    };
     spec.rt_extra = if s.chance(1, 6) { 1 } else { 0 };
     spec.gap_every = if s.chance(1, 3) { 1 + s.pick(5) as u8 } else { 0 };
     spec.comp_sector_align = s.chance(1, 4);
